@@ -464,6 +464,11 @@ func (str *AgileTreeReader) decodeNodeDetailsJit(buf []byte, numAggValues int,
 			agIdx += uint32(measResIndices[j]) * 9 // jump to the AgValue for this meas's index
 
 			wvInt64, wvFloat64, dtype = sutils.ConvertBytesToNumber(buf[agIdx : agIdx+9])
+			if dtype == sutils.SS_DT_UNSIGNED_NUM {
+				// ConvertBytesToNumber reports a float64 value under the unsigned tag (integers
+				// always come back as SS_DT_SIGNED_NUM); reduced as an integer it would count as 0
+				dtype = sutils.SS_DT_FLOAT
+			}
 
 			// remainder will give us MeasFnIdx
 			fn := writer.IdxToAgFn[measResIndices[j]%writer.TotalMeasFns]
